@@ -27,7 +27,8 @@ from prompt_toolkit.styles.style import _expand_classname, _parse_style_str, par
 
 ID = "C19"
 DRIVER = "drv_c19"
-PROPS = ["Ptk.Props.C19", "Ptk.Props.C19Cascade", "Ptk.Props.C19Color", "Ptk.Props.C19Sgr", "Ptk.Props.C19Depth"]
+PROPS = ["Ptk.Props.C19", "Ptk.Props.C19Cascade", "Ptk.Props.C19Color", "Ptk.Props.C19Sgr", "Ptk.Props.C19Depth",
+         "Ptk.Props.C19Style", "Ptk.Props.C19Valid"]
 LEVEL_TEXT = ("Lean 4 theorems over an executable model of Style.get_attrs_for_style_str / _merge_attrs / "
               "merge_styles (last-wins cascade, class-combination matching, merged = concatenated, concreteness), "
               "of the nearest-colour searches (argmin over any palette, first on ties, exact colours fixed) and of "
@@ -45,8 +46,9 @@ RULE = ("exhaustive: every rule list up to the tier bound over 6 class-name sets
         "when at least one rule or inline part applies, resp. the colour is not an exact palette entry")
 EXHAUSTIVE = True
 EXHAUSTIVE_SCOPE = {
-    "quick": "rule lists <=2 over 18 rules x style strings <=3 parts over 7 parts; all splits into 2-3 sheets of "
-             "lists <=2; 128 flag tuples x 14 colour pairs x depths {1,4,8,24}; RGB 17^3 grid for both maps",
+    "quick": "rule lists <=1 over 18 rules x all style strings <=3 parts over 7 parts, rule lists of 2 x all style "
+             "strings <=2 parts (+ every 5th of 3 parts); all splits into 2-3 sheets of lists <=2; 128 flag tuples "
+             "x 14 colour pairs x depths {1,4,8,24}; RGB 17^3 grid for both maps",
     "thorough": "rule lists <=3 over 18 rules x style strings <=3 parts over 7 parts; all splits into 2-3 sheets "
                 "of lists <=3 (reduced string set); 128 flag tuples x 14 colour pairs x 4 depths; ALL 256^3 RGB "
                 "triples for the 256-colour map; 52^3 grid x exclusion lists for the 16-colour map"}
@@ -308,6 +310,9 @@ def expected_cascade(rules, style_str, default):
     return Attrs(*vals), present
 
 
+_rt_memo = {}
+
+
 def oracle_q(case):
     v = []
     res, styles = q_results(case)
@@ -345,6 +350,24 @@ def oracle_q(case):
                 and all(isinstance(x, bool) for x in r[2:])):
             v.append({"signature": "Style.get_attrs_for_style_str | attribute not concrete",
                       "msg": f"wrong attribute types: style={s!r} -> {r}"})
+        # the escape sequence emitted for the resolved attributes decodes back to them (24 bit)
+        if all(isinstance(x, str) for x in r[:2]):
+            key = tuple(r)
+            if key not in _rt_memo:
+                if len(_rt_memo) > 20000:
+                    _rt_memo.clear()
+                _rt_memo[key] = real_rt(24, list(r))
+            e, frags, back = _rt_memo[key]
+            if back != canon_attrs(r):
+                if not (valid_color(r.color) and valid_color(r.bgcolor)):
+                    if valid_color(dflt.color or "") and valid_color(dflt.bgcolor or ""):
+                        v.append({"signature": SIG_UNVALIDATED_HEX,
+                                  "msg": f"style={s!r} sheets={case['sheets']!r} resolves to {r}; escape {e!r} "
+                                         f"decodes to {back}"})
+                else:
+                    v.append({"signature": "_EscapeCodeCache | 24-bit escape of resolved attributes does not decode back",
+                              "msg": f"style={s!r} sheets={case['sheets']!r} resolves to {r}; escape {e!r} "
+                                     f"decodes to {back}"})
         exp, _ = expected_cascade(rules, s, dflt)
         if r != exp:
             v.append({"signature": "Style.get_attrs_for_style_str | not the last applicable value",
@@ -361,14 +384,19 @@ def oracle_q(case):
     return v
 
 
+SIG_UNVALIDATED_HEX = "parse_color | '#' followed by 6 or 3 non-hex characters is accepted as a colour"
+
+
 def valid_color(c):
-    return c == "" or c in FG_ANSI_COLORS or (len(c) == 6 and all(ch in HEX for ch in c))
+    return c in ("", "default") or c in FG_ANSI_COLORS or (len(c) == 6 and all(ch in HEX for ch in c))
 
 
 def canon_attrs(a):
     """the attributes an escape sequence can carry: None/'' -> no colour, flags as booleans, hex lower-case"""
     def col(c):
         c = c or ""
+        if c == "default":
+            return ""
         return c if c in FG_ANSI_COLORS else c.lower()
     return Attrs(col(a[0]), col(a[1]), *[bool(x) for x in a[2:9]])
 
@@ -501,7 +529,7 @@ def oracle_esc(case):
             fg_name = None
             for which, col in (("fg", fgc), ("bg", bgc)):
                 site = f"_EscapeCodeCache depth {d} {which}"
-                if col == "":
+                if col in ("", "default"):
                     if which in got:
                         v.append({"signature": f"{site} | colour emitted for empty colour",
                                   "msg": f"attrs={a} esc={e!r}"})
@@ -738,7 +766,11 @@ def cases(tier, rng):
     strs3 = all_strs(3)
     strs2 = all_strs(2)
     for rules in all_rule_lists(2 if quick else 3):
-        yield {"k": "q", "sheets": [rules], "strs": strs3 if len(rules) < 3 else strs2 + strs3[57::7]}
+        if quick:
+            strs = strs3 if len(rules) < 2 else strs2 + strs3[57::5]
+        else:
+            strs = strs3 if len(rules) < 3 else strs2 + strs3[57::7]
+        yield {"k": "q", "sheets": [rules], "strs": strs}
     for rules in all_rule_lists(2 if quick else 3):
         if not rules:
             continue
